@@ -1,22 +1,82 @@
 (* C02 — Every estimator puts spectral values on the frequency axis it reports.  Statements only.
 
-   PROVED:
+   PROVED (abstract [ordered] *-field, abstract twiddle character of exact period NFFT, every NFFT >= 1 of both parities):
+   -- the axis
      axis_counts            the reported axis has NFFT/2+1 (NFFT even) or (NFFT+1)/2 (NFFT odd) entries for one-sided
-                            (real-data) spectra and NFFT entries for two-sided / centred ones, for every NFFT
-     twosided_axis          entry k of the two-sided axis is bin k (frequency k*sampling/NFFT); one-sided likewise;
-                            the centred axis is bin k - NFFT/2
-     unit_sum_bound         |sum_n w_n u_n|^2 <= (sum_n w_n)^2 for non-negative weights w and unimodular u
-                            (abstract ordered *-field: the triangle inequality without square roots)
-     tone_at_its_bin        the windowed DFT of the on-grid exponential A*exp(2 pi i k n/NFFT) at bin k is A * sum(w)
-     tone_peak              ... and at every other bin j its squared modulus is no larger: for every window with
-                            non-negative samples, every N <= NFFT, every amplitude, the periodogram of a pure on-grid
-                            exponential attains its maximum at the entry of bin k (any k in Z, i.e. both signs)
-   NOT PROVED (search on the implementation only): the same for a tone "in noise"; the correlogram (follows from
-   Wiener-Khinchin for the rectangular/biased case), covariance / modified covariance / MUSIC / EV exactness (C14, C17);
-   "within one bin" for Burg, Yule-Walker, ARMA, minimum variance and "within the taper bandwidth" for multitaper are
-   statements about perturbed non-linear estimators with no closed form; the per-class length / real / finite clauses. *)
+                            (real-data) spectra and NFFT entries for two-sided / centred ones
+     twosided_axis          entry k of the two-sided axis is bin k (frequency k*sampling/NFFT); one-sided likewise; centred: k - NFFT/2
+   -- lengths and placement, for every pipeline table (the generated-table instances are listed below)
+     functional_lengths     what each functional estimator returns: speriodogram NFFT/2+1 | NFFT values, CORRELOGRAMPSD / arma2psd / minvar /
+                            eigen / multitaper mean NFFT values (models of C01, C08, C16, C17, C19)
+     pipeline_entry         entry j of ANY stored PSD = (one coefficient for the whole array) * (positive integer weight) * (functional
+                            result at src_index j); src_index and weight are explicit for the four stores of the vocabulary
+     pipeline_axis_halfslice  rows storing "first half times 2" (real) / the array (complex): length = len(default axis), entry j = coef * c * S[j]
+     arma_class_axis        ... with S[j] = rho |B(w^j)|^2/|A(w^j)|^2 for the AR / MA / ARMA classes (guard A(w^j) <> 0: the code divides by it)
+     minvar_class_axis      ... with S[j] = 1 / sum_k |A_k(w^j)|^2/P_k for the minimum-variance class (NFFT >= 2*order-1)
+     multitaper_class_axis  the multitaper class: len(default axis) entries, entry b = [2pi/df] [2] * weighted mean of the eigenspectra at bin b
+     class_models_agree     the class models of C17 (Eigen.class_psd: pmusic / pev) and C19 (Mtm.mt_fold: MultiTapering) ARE the interpreter's do_store at
+                            the stores the generated table gives those classes (generated theorem store_rows): one stored array, two descriptions
+   -- tone location, exact
+     unit_sum_bound, tone_at_its_bin, tone_peak   (phase 1) |sum w_n u_n|^2 <= (sum w_n)^2; the windowed DFT of an on-grid exponential peaks at its bin
+     periodogram_peak       speriodogram (model of the code: flags failing, real- or complex-data storage, any N <= NFFT, any window with
+                            non-negative samples) on x_i = A exp(2 pi i k i/NFFT): every returned bin <= the returned bin congruent to k,
+                            whose value is |A|^2 (sum w)^2 / N
+     periodogram_class_peak the same for the Periodogram class after any history of __call__ / psd reads / window changes
+     real_sinusoid_bins     rectangular window, N = NFFT: the transform of A w^(-ki) + conj(A) w^(ki) is NFFT*A at bin k, NFFT*conj(A) at bin -k, 0 elsewhere
+     real_sinusoid_peak     hence for 2k <> 0 (mod NFFT) the bins congruent to k and -k are the (equal) maxima |A|^2 NFFT of speriodogram, all
+                            other returned bins are exactly 0: the one-sided result peaks at the entry of |f|
+     correlogram_peak       CORRELOGRAMPSD, rectangular lag window / biased / lag N-1 / NFFT >= 2N-1 (either back end): same peak, value |A|^2 N
+                            (through C01 wiener_khinchin)
+     music_axis_eigen / _complex / _real   C17's axis theorems with the bin written as the entry of Range's axis (freq_bins Center / Two / One)
+     music_tone_exact       pmusic / pev, complex and real data, noiseless on-grid exponentials, NSIG = K, any SVD meeting svd_spec: every entry
+                            is [scale] [2] 1/D(bin of entry), D >= 0 everywhere, and D = 0 exactly computed at every entry whose bin is
+                            congruent to a true bin -- the reciprocal of the minimum of the denominator: the "infinite" maximum
+                            (the code gets inf; the model's 1/0 is the totalised field's)
+     music_no_other_zero    ... and D(b) > 0 (so 1/D(b) is finite and > 0) at EVERY bin b not congruent to a true bin: K+1 exponentials with distinct
+                            nodes cannot all lie in the K-dimensional signal space (completeness of V + dependence of K+1 vectors in a K-span +
+                            transposed Vandermonde).  With music_tone_exact: the zero set of D on the grid is exactly the set of true bins
+     covar_tone_exact / modcovar_tone_exact   p distinct on-grid exponentials, order p, N >= 2p, any lstsq meeting lstsq_spec: e = 0 and the
+                            denominator polynomial of arma2psd satisfies A(w^b) = 0 <-> b congruent to a true bin (mod NFFT)
+     covar_tone_returns     the executed models (Gaussian elimination) do return (a, 0) on such data
+     arma2psd_rho_zero      what the classes then store: rho = e/(N-p) = 0, arma2psd returns the ALL-ZERO spectrum in the totalised field
+                            (the code evaluates 0/0 = nan at the true bins and 0 elsewhere): in exact arithmetic the location is carried by
+                            the zero set of the denominator only; the stored PSD has no maximum.  The tone-in-noise clause is search-only.
+   -- real / non-negative
+     psd_nonneg_stored      any store, any table: coefficient >= 0 and functional result >= 0 at the source entry => stored entry >= 0 and real
+     psd_nonneg_periodogram speriodogram bins >= 0 (any flags; scale factor >= 0 when scale_by_freq is True)
+     psd_real_correlogram   CORRELOGRAMPSD values are real (numpy.real) for every window / lag / NFFT
+     psd_nonneg_arma, psd_nonneg_minvar, psd_nonneg_multitaper, psd_nonneg_subspace   C08 arma2psd_nonneg, C16 minvar_positive,
+                            C19 class_real_nonneg, C17 pseudo_positive collected under their guards
+   PROVED over the GENERATED table (tools/props/_pipelines.py + tools/props/_c02_theorems.v.in, recompiled from the snapshot on every
+   run by tools/props/C02.py through ctx.check_generated; listed in the evidence under these names):
+     c02_table_complete     every class has exactly one row
+     store_rows             the real- / complex-data store of every row (SAsIs | twosided_2_onesided | first half * 2 [reversed] | centerdc_2_twosided)
+     default_axis           frequencies() (default side) has NFFT/2+1 | (NFFT+1)/2 | NFFT entries = length (freq_bins ...), entry j = j*sampling/NFFT,
+                            in every reachable object state (constructed, sampling reassigned any number of times)
+     pipeline_length        every class of the statement (pdaniell is not one), every NFFT >= 1, real / complex, scale_by_freq on / off:
+                            length psd = length frequencies() (also after the psd setter ran) = the stated count
+     pipeline_axis          pburg pyule pcovar pmodcovar parma pma pminvar MultiTapering: entry j = coef * c * S[j], c = 2 real / 1 complex, and
+                            frequencies()[j] = j*sampling/NFFT
+     pipeline_axis_fourier  Periodogram: entry j = coef * S[j]; pcorrelogram: coef * w_j * S[j], w_j = 1 at DC / even-NFFT Nyquist, else 2 (real data)
+     pipeline_axis_subspace pmusic pev: entry j = coef * c * (centred functional result at the entry whose bin is congruent to j (complex) / is -j (real))
+     pipeline_axis_unscaled scale_by_freq off: coef = 1/sampling (AR/MA/ARMA), sampling (minimum variance), 1 (the others)
+   NOT PROVED (search on the implementation only): a tone IN NOISE for any class (exact for periodogram / correlogram / covariance / modified
+   covariance / MUSIC / EV; "within one bin" for Burg, Yule-Walker, ARMA, minimum variance; "within the taper bandwidth" for multitaper;
+   real sinusoid within the main lobe for windows other than the rectangular one / N < NFFT) -- statements about perturbed non-linear
+   estimators with no closed form; the correlogram peak for other windows / lags;
+   "finite" is expressed by the guards (denominator <> 0) of the formulas, binary64 overflow is not modelled; that each functional
+   estimator's model is the code is tied by the correspondence runs of C01 / C08 / C14 / C16 / C17 / C19, not proved. *)
 Require Import Spectrum.Theory.Ops Spectrum.Theory.Sum Spectrum.Theory.Vec Spectrum.Theory.Order Spectrum.Theory.Dft
                Spectrum.Model.Convert Spectrum.Proofs.PeakTheory
+               Spectrum.Model.PipelineLib Spectrum.Proofs.PipelineTheory Spectrum.Proofs.PipelineAxis_C02
+               Spectrum.Model.Corr Spectrum.Model.Periodogram Spectrum.Proofs.PeriodogramTheory
+               Spectrum.Model.Arma2psd Spectrum.Proofs.Arma2psdTheory
+               Spectrum.Model.Levinson Spectrum.Model.Burg Spectrum.Model.Minvar Spectrum.Proofs.MinvarFinal
+               Spectrum.Model.Mtm Spectrum.Proofs.MtmTheory Spectrum.Proofs.MtmOrder
+               Spectrum.Model.Ls Spectrum.Proofs.CovarTheory
+               Spectrum.Model.Eigen Spectrum.Proofs.EigenFB Spectrum.Proofs.EigenTheory
+               Spectrum.Proofs.FunctionalLen_C02 Spectrum.Proofs.ClassAxis_C02 Spectrum.Proofs.PeakClass_C02
+               Spectrum.Proofs.SubspaceTone_C02 Spectrum.Proofs.SubspaceStrict_C02 Spectrum.Proofs.ToneExact_C02 Spectrum.Proofs.ClassModels_C02
                Spectrum.Instances.QcC Spectrum.Instances.QcCOrd Spectrum.Instances.QcCTw.
 From Coq Require Import QArith Qcanon.
 
@@ -57,7 +117,272 @@ Proof. exact (tone_dft_at_bin n tw n_pos N w A k). Qed.
 Theorem tone_peak N (w : nat -> F) A (k j : Z) : (forall i, (i < N)%nat -> nonneg (w i)) ->
   le (nrm2 (dftN tw N (fun i => w i * tone tw A k i) j)) (nrm2 (dftN tw N (fun i => w i * tone tw A k i) k)).
 Proof. exact (PeakTheory.tone_peak n tw n_pos N w A k j). Qed.
+
+(* ---- the tone clauses on the models of the code ---- *)
+Theorem periodogram_peak twopi (x w : list F) isreal dt sbf fs A (k : Z) j jk :
+  py_eq_true dt = false -> py_is_true sbf = false -> (1 <= length x <= n)%nat ->
+  is_tone tw x A k -> (forall i, (i < length x)%nat -> nonneg (nthF w i)) ->
+  (j < nbins isreal n)%nat -> (jk < nbins isreal n)%nat -> (exists c : Z, Z.of_nat jk = k + c * Z.of_nat n)%Z ->
+  let P := speriodogram tw twopi x w (Some n) isreal dt sbf fs in
+  le (nthF P j) (nthF P jk)
+  /\ nthF P jk = nrm2 (A * sumf (length x) (nthF w)) / ofnat (length x).
+Proof. exact (speriodogram_peak_thm n tw n_pos twopi x w isreal dt sbf fs A k j jk). Qed.
+
+Theorem periodogram_class_peak twopi (data : list F) isreal wn w fs a dt sbf (ops : list pop) A (k : Z) j jk :
+  py_eq_true dt = false -> py_is_true sbf = false ->
+  init_nfft a (length data) = n -> (1 <= length data <= n)%nat -> is_tone tw data A k ->
+  let s := p_read tw twopi (fold_left (p_step tw twopi) ops (p_init data isreal wn w fs a dt sbf)) in
+  (forall i, (i < length data)%nat -> nonneg (nthF (p_window s) i)) ->
+  (j < nbins isreal n)%nat -> (jk < nbins isreal n)%nat -> (exists c : Z, Z.of_nat jk = k + c * Z.of_nat n)%Z ->
+  exists psd, p_psd s = Some psd /\ length psd = nbins isreal n /\ p_NFFT s = n /\ le (nthF psd j) (nthF psd jk).
+Proof. exact (periodogram_class_peak_thm n tw n_pos twopi data isreal wn w fs a dt sbf ops A k j jk). Qed.
+
+Theorem real_sinusoid_bins (A : F) (k j : Z) :
+  dftN tw n (fun i => A * tw (- (k * Z.of_nat i))%Z + conj A * tw (k * Z.of_nat i)%Z) j
+  = (if ((j - k) mod Z.of_nat n =? 0)%Z then ofnat n else 0) * A + (if ((j + k) mod Z.of_nat n =? 0)%Z then ofnat n else 0) * conj A.
+Proof. exact (real_sinusoid_bins_thm n tw n_pos A k j). Qed.
+
+Theorem real_sinusoid_peak twopi (x w : list F) isreal dt sbf fs (A : F) (k : Z) j jk :
+  py_eq_true dt = false -> py_is_true sbf = false -> length x = n ->
+  (forall i, (i < n)%nat -> nthF x i = A * tw (- (k * Z.of_nat i))%Z + conj A * tw (k * Z.of_nat i)%Z) ->
+  (forall i, (i < n)%nat -> nthF w i = 1) ->
+  ((2 * k) mod Z.of_nat n <> 0)%Z ->
+  (j < nbins isreal n)%nat -> (jk < nbins isreal n)%nat ->
+  (((Z.of_nat jk - k) mod Z.of_nat n = 0)%Z \/ ((Z.of_nat jk + k) mod Z.of_nat n = 0)%Z) ->
+  let P := speriodogram tw twopi x w (Some n) isreal dt sbf fs in
+  nthF P jk = nrm2 A * ofnat n
+  /\ le (nthF P j) (nthF P jk)
+  /\ (((Z.of_nat j - k) mod Z.of_nat n <> 0)%Z -> ((Z.of_nat j + k) mod Z.of_nat n <> 0)%Z -> nthF P j = 0).
+Proof. exact (real_sinusoid_peak_thm n tw n_pos twopi x w isreal dt sbf fs A k j jk). Qed.
+
+Theorem correlogram_peak rp (x wfull : list F) be A (k : Z) j jk :
+  (1 <= length x)%nat -> (2 * length x - 1 <= n)%nat -> is_tone tw x A k ->
+  (forall d, (d < length x - 1)%nat -> nthF wfull (length x + d) = 1) ->
+  (j < n)%nat -> (jk < n)%nat -> (exists c : Z, Z.of_nat jk = k + c * Z.of_nat n)%Z ->
+  exists psd, correlogram tw rp x None (length x - 1) wfull (Some n) Biased be = Some psd /\ length psd = n
+    /\ le (nthF psd j) (nthF psd jk)
+    /\ nthF psd jk = nrm2 A * ofnat (length x).
+Proof. exact (correlogram_peak_thm n tw n_pos rp x wfull be A k j jk). Qed.
+
+(* ---- MUSIC / EV and covariance / modified covariance: noiseless exact location ---- *)
+Theorem music_tone_exact meth eps crit amin (x : list F) (P K : nat) (A z : nat -> F) (bin : nat -> Z)
+        (S : list F) (Vh : list (list F)) isr scale psd ev :
+  (forall i, (i < length x)%nat -> nthF x i = expsig K A z i) ->
+  (forall i, (i < K)%nat -> z i = tw (- bin i)%Z) ->
+  (K <= np_of (length x) P)%nat -> EigenFB.distinct K z -> (forall i, (i < K)%nat -> A i <> 0) ->
+  svd_spec (fb_matrix x P) (2 * np_of (length x) P) P S Vh ->
+  (meth = MEv -> pos eps /\ pos (nthF S 0)) ->
+  pclass meth eps isr scale (Some (NInt (Z.of_nat K))) None crit amin tw n x P S Vh = inr (psd, ev) ->
+  let D := dform meth eps tw P S Vh K in
+  ev = S /\ length psd = (if isr then n / 2 + 1 else n)%nat /\ (K < P)%nat
+  /\ (forall j, (j < length psd)%nat -> nthF psd j = entry_val isr scale (D (entry_bin isr j)) /\ nonneg (D (entry_bin isr j)))
+  /\ (forall i j (c : Z), (i < K)%nat -> (j < length psd)%nat -> entry_bin isr j = (bin i + c * Z.of_nat n)%Z ->
+        D (entry_bin isr j) = 0 /\ forall b : Z, le (D (entry_bin isr j)) (D b)).
+Proof. exact (music_tone_exact_thm tw n n_pos meth eps crit amin x P K A z bin S Vh isr scale psd ev). Qed.
+
+Theorem music_no_other_zero meth eps (x : list F) (P K : nat) (A z : nat -> F) (bin : nat -> Z) (S : list F) (Vh : list (list F)) (b : Z) :
+  (forall i, (i < length x)%nat -> nthF x i = expsig K A z i) ->
+  (forall i, (i < K)%nat -> z i = tw (- bin i)%Z) ->
+  (K <= np_of (length x) P)%nat -> EigenFB.distinct K z -> (forall i, (i < K)%nat -> A i <> 0) ->
+  svd_spec (fb_matrix x P) (2 * np_of (length x) P) P S Vh -> (K < P)%nat ->
+  (meth = MEv -> pos eps /\ pos (nthF S 0)) ->
+  (forall i, (i < K)%nat -> ((b - bin i) mod Z.of_nat n <> 0)%Z) ->
+  pos (dform meth eps tw P S Vh K b) /\ pos (1 / dform meth eps tw P S Vh K b).
+Proof. exact (fun Hx Hg HK Hd HA Hs HKP Hev => music_no_other_zero_thm tw n n_pos x P K A z bin S Vh meth eps Hx Hg HK Hd HA Hs HKP Hev b). Qed.
+
+Theorem covar_tone_exact (x : list F) (p : nat) (amp : nat -> F) (bin : nat -> Z) lstsq tol a e :
+  (forall t, (t < length x)%nat -> nthF x t = expsum p amp (fun i => tw (- bin i)%Z) t) ->
+  (forall i j, (i < j < p)%nat -> ((bin i - bin j) mod Z.of_nat n <> 0)%Z) ->
+  (forall i, (i < p)%nat -> amp i <> 0) -> (2 * p <= length x)%nat ->
+  lstsq_spec lstsq -> arcovar_with lstsq tol x p = Some (a, e) ->
+  e = 0 /\ length a = p
+  /\ (forall i (c : Z), (i < p)%nat -> polyz tw a (bin i + c * Z.of_nat n)%Z = 0)
+  /\ (forall b : Z, (forall i, (i < p)%nat -> ((b - bin i) mod Z.of_nat n <> 0)%Z) -> polyz tw a b <> 0).
+Proof. exact (fun Hx Hb Ha HN => covar_tone_exact_thm n tw n_pos x p amp bin Hx Hb Ha HN lstsq tol a e). Qed.
+
+Theorem modcovar_tone_exact (x : list F) (p : nat) (amp : nat -> F) (bin : nat -> Z) lstsq tol a e :
+  (forall t, (t < length x)%nat -> nthF x t = expsum p amp (fun i => tw (- bin i)%Z) t) ->
+  (forall i j, (i < j < p)%nat -> ((bin i - bin j) mod Z.of_nat n <> 0)%Z) ->
+  (forall i, (i < p)%nat -> amp i <> 0) -> (2 * p <= length x)%nat ->
+  lstsq_spec lstsq -> modcovar_with lstsq tol x p = Some (a, e) ->
+  e = 0 /\ length a = p
+  /\ (forall i (c : Z), (i < p)%nat -> polyz tw a (bin i + c * Z.of_nat n)%Z = 0)
+  /\ (forall b : Z, (forall i, (i < p)%nat -> ((b - bin i) mod Z.of_nat n <> 0)%Z) -> polyz tw a b <> 0).
+Proof. exact (fun Hx Hb Ha HN => modcovar_tone_exact_thm n tw n_pos x p amp bin Hx Hb Ha HN lstsq tol a e). Qed.
+
+Theorem covar_tone_returns (x : list F) (p : nat) (amp : nat -> F) (bin : nat -> Z) tol :
+  (forall t, (t < length x)%nat -> nthF x t = expsum p amp (fun i => tw (- bin i)%Z) t) ->
+  (forall i j, (i < j < p)%nat -> ((bin i - bin j) mod Z.of_nat n <> 0)%Z) ->
+  (forall i, (i < p)%nat -> amp i <> 0) -> (2 * p <= length x)%nat ->
+  (exists a, arcovar tol x p = Some (a, 0) /\ length a = p) /\ (exists a, modcovar tol x p = Some (a, 0) /\ length a = p).
+Proof.
+  exact (fun Hx Hb Ha HN => Logic.conj (ToneExact_C02.covar_tone_returns n tw n_pos x p amp bin Hx Hb Ha HN tol)
+                                       (ToneExact_C02.modcovar_tone_returns n tw n_pos x p amp bin Hx Hb Ha HN tol)).
+Qed.
 End C02.
+
+
+(* ---- lengths and placement ---- *)
+Section C02axis.
+Context {F : Type} {OF : Ops F} {L : Laws OF}.
+Local Open Scope F_scope.
+
+Theorem functional_lengths (n : nat) : (1 <= n)%nat ->
+  (forall tw twopi (x w : list F) isreal dt sbf fs,
+     length (speriodogram tw twopi x w (Some n) isreal dt sbf fs) = fest_len Periodogram isreal n)
+  /\ (forall tw rp (x : list F) y lag wfull nm be l real,
+     correlogram tw rp x y lag wfull (Some n) nm be = Some l -> length l = fest_len Pcorrelogram real n)
+  /\ (forall tw A B (rho T : F) sides norm psd real c,
+     arma2psd tw A B rho T n sides norm = Some psd -> group_of c = GModel -> length psd = fest_len c real n)
+  /\ (forall tw (x : list F) m s psd A ks real,
+     minvar tw x m s n = Some (psd, A, ks) -> length psd = fest_len Pminvar real n)
+  /\ (forall meth eps nsig thr crit amin tw (x : list F) P S Vh psd ev real c,
+     eigen meth eps nsig thr crit amin tw n x P S Vh = inr (psd, ev) -> (c = Pmusic \/ c = Pev) -> length psd = fest_len c real n)
+  /\ (forall m (Skc w : list (list F)) nwin real, length (mt_mean m Skc w nwin n) = fest_len MultiTapering real n).
+Proof. exact (functional_lengths_thm n). Qed.
+
+Theorem pipeline_entry (twopi : F) m p (real : bool) sbf (s : sstate) (Sp : list F) j :
+  let st := if real then p_real p else p_cplx p in
+  (j < length (stored twopi m p real sbf s Sp))%nat ->
+  nthF (stored twopi m p real sbf s Sp) j
+  = coef twopi m p real sbf s (length (PipelineLib.layout p real (st_NFFT s) Sp))
+    * (src_weight st (length Sp) j * nthF Sp (src_index st (st_NFFT s) (length Sp) j)).
+Proof. exact (stored_entry twopi m p real sbf s Sp j). Qed.
+
+Theorem pipeline_axis_halfslice (twopi : F) m p real sbf (s : sstate) (Sp : list F) j :
+  p_real p = SHalf HalfPlus1 HalfUp 2 false -> p_cplx p = SAsIs ->
+  (1 <= st_NFFT s)%nat -> length Sp = st_NFFT s -> (j < axis_len real (st_NFFT s))%nat ->
+  length (stored twopi m p real sbf s Sp) = axis_len real (st_NFFT s) /\
+  nthF (stored twopi m p real sbf s Sp) j
+  = coef twopi m p real sbf s (axis_len real (st_NFFT s)) * ((if real then ofnat 2 else 1) * nthF Sp j).
+Proof. exact (stored_entry_halfslice twopi m p real sbf s Sp j). Qed.
+
+Theorem arma_class_axis (twopi : F) (n : nat) (tw : Z -> F) (Tw : Twiddle n tw) m p real sbf (s : sstate) A B rho S1 j :
+  p_real p = SHalf HalfPlus1 HalfUp 2 false -> p_cplx p = SAsIs ->
+  st_NFFT s = n -> (1 <= n)%nat -> isreal rho ->
+  arma2psd tw A B rho 1 n SidesDefault false = Some S1 ->
+  (j < axis_len real n)%nat -> polyz_opt tw A (Z.of_nat j) <> 0 ->
+  length (stored twopi m p real sbf s S1) = axis_len real n /\
+  nthF (stored twopi m p real sbf s S1) j
+  = coef twopi m p real sbf s (axis_len real n)
+    * ((if real then ofnat 2 else 1) * (rho / 1 * nrm2 (polyz_opt tw B (Z.of_nat j)) / nrm2 (polyz_opt tw A (Z.of_nat j)))).
+Proof. exact (arma_class_axis_thm twopi n tw m p real sbf s A B rho S1 j). Qed.
+
+Theorem minvar_class_axis (twopi : F) (n : nat) (tw : Z -> F) (Tw : Twiddle n tw) m p real sbf (s : sstate) (x : list F) order S1 A ks j :
+  p_real p = SHalf HalfPlus1 HalfUp 2 false -> p_cplx p = SAsIs ->
+  st_NFFT s = n -> ofnat (length x) <> 0 -> (2 * order - 1 <= n)%nat ->
+  minvar tw x order 1 n = Some (S1, A, ks) ->
+  (j < axis_len real n)%nat ->
+  length (stored twopi m p real sbf s S1) = axis_len real n /\
+  nthF (stored twopi m p real sbf s S1) j
+  = coef twopi m p real sbf s (axis_len real n)
+    * ((if real then ofnat 2 else 1) * (1 / capon_sum tw (mean_power x) ks (Z.of_nat j))).
+Proof. exact (minvar_class_axis_thm twopi n tw m p real sbf s x order S1 A ks j). Qed.
+
+Theorem multitaper_class_axis {NWT : Type} (dpss : nat -> NWT -> option nat -> list (list F) * list F)
+  fuel tw isr (x : list F) NW k nfft e v m sbf scale psd :
+  mt_call dpss fuel tw isr x NW k nfft e v m sbf scale = Some psd ->
+  let n := match nfft with Some n => n | None => length x end in
+  (1 <= n)%nat ->
+  exists Skc w ev,
+    pmtm dpss fuel tw x NW k (Some n) e v m = Some (Skc, w, ev) /\
+    length psd = axis_len isr n /\ length psd = length (freq_bins (if isr then One else Two) n) /\
+    forall b, (b < axis_len isr n)%nat ->
+      nthF psd b = (fun a => if sbf then a * scale else a)
+                     ((fun a => if isr then a * two else a) (wmean m Skc w (length ev) b)).
+Proof. exact (multitaper_class_axis_thm dpss fuel tw isr x NW k nfft e v m sbf scale psd). Qed.
+
+Theorem music_axis_eigen (tw : Z -> F) (NFFT : nat) (T : Twiddle NFFT tw) (Hpos : (0 < NFFT)%nat)
+        meth eps nsig thr crit amin (x : list F) (P : nat) (S : list F) (Vh : list (list F)) psd ev :
+  (forall I, (I < P)%nat -> length (mrow Vh I) = P) ->
+  eigen meth eps nsig thr crit amin tw NFFT x P S Vh = inr (psd, ev) ->
+  exists ns, eigen_nsig meth nsig thr crit amin (length x) P NFFT S = inr ns /\ ev = S /\ length psd = length (freq_bins Center NFFT) /\
+    forall j, (j < NFFT)%nat -> nthF psd j = 1 / dform meth eps tw P S Vh ns (nth j (freq_bins Center NFFT) 0%Z).
+Proof. exact (fun Hrows => music_axis_eigen_c02 tw NFFT Hpos meth eps nsig thr crit amin x P S Vh Hrows psd ev). Qed.
+
+Theorem music_axis_complex (tw : Z -> F) (NFFT : nat) (T : Twiddle NFFT tw) (Hpos : (0 < NFFT)%nat)
+        meth eps nsig thr crit amin (x : list F) (P : nat) (S : list F) (Vh : list (list F)) scale psd ev :
+  (forall I, (I < P)%nat -> length (mrow Vh I) = P) ->
+  pclass meth eps false scale nsig thr crit amin tw NFFT x P S Vh = inr (psd, ev) ->
+  exists ns, eigen_nsig meth nsig thr crit amin (length x) P NFFT S = inr ns /\ ev = S /\ length psd = length (freq_bins Two NFFT) /\
+    forall j, (j < NFFT)%nat -> nthF psd j = scaled scale (1 / dform meth eps tw P S Vh ns (nth j (freq_bins Two NFFT) 0%Z)).
+Proof. exact (fun Hrows => music_axis_complex_c02 tw NFFT Hpos meth eps nsig thr crit amin x P S Vh Hrows scale psd ev). Qed.
+
+Theorem music_axis_real (tw : Z -> F) (NFFT : nat) (T : Twiddle NFFT tw) (Hpos : (0 < NFFT)%nat)
+        meth eps nsig thr crit amin (x : list F) (P : nat) (S : list F) (Vh : list (list F)) scale psd ev :
+  (forall I, (I < P)%nat -> length (mrow Vh I) = P) ->
+  pclass meth eps true scale nsig thr crit amin tw NFFT x P S Vh = inr (psd, ev) ->
+  exists ns, eigen_nsig meth nsig thr crit amin (length x) P NFFT S = inr ns /\ ev = S /\ length psd = length (freq_bins One NFFT) /\
+    forall j, (j < length (freq_bins One NFFT))%nat ->
+      nthF psd j = scaled scale (1 / dform meth eps tw P S Vh ns (- nth j (freq_bins One NFFT) 0%Z)%Z * two)
+      /\ ((forall I m, conj (mat Vh I m) = mat Vh I m) ->
+          nthF psd j = scaled scale (1 / dform meth eps tw P S Vh ns (nth j (freq_bins One NFFT) 0%Z) * two)).
+Proof. exact (fun Hrows => music_axis_real_c02 tw NFFT Hpos meth eps nsig thr crit amin x P S Vh Hrows scale psd ev). Qed.
+
+Theorem arma2psd_rho_zero (tw : Z -> F) A B T n : admissible A B n ->
+  exists psd, arma2psd tw A B 0 T n SidesDefault false = Some psd /\ length psd = n /\ forall k, (k < n)%nat -> nthF psd k = 0.
+Proof. exact (ToneExact_C02.arma2psd_rho_zero tw A B T n). Qed.
+
+Theorem class_models_agree (isr : bool) NFFT (l : list F) :
+  class_psd isr NFFT None l = do_store (if isr then SHalf HalfPlus1 HalfUp 2 true else SCenter2Two) NFFT l
+  /\ mt_fold isr NFFT l = do_store (if isr then SHalf HalfPlus1 HalfUp 2 false else SAsIs) NFFT l.
+Proof. exact (Logic.conj (eigen_class_is_store isr NFFT l) (mtm_fold_is_store isr NFFT l)). Qed.
+End C02axis.
+
+(* ---- real / non-negative ---- *)
+Section C02nonneg.
+Context {F : Type} {OF : Ops F} {L : Laws OF} {OL : OrdLaws OF}.
+Local Open Scope F_scope.
+
+Theorem psd_nonneg_stored (twopi : F) m p (real : bool) sbf (s : sstate) (Sp : list F) j :
+  let st := if real then p_real p else p_cplx p in
+  (j < length (stored twopi m p real sbf s Sp))%nat ->
+  (match st with STwo2One => 1 <= length Sp | _ => True end)%nat ->
+  nonneg (coef twopi m p real sbf s (length (PipelineLib.layout p real (st_NFFT s) Sp))) ->
+  nonneg (nthF Sp (src_index st (st_NFFT s) (length Sp) j)) ->
+  nonneg (nthF (stored twopi m p real sbf s Sp) j) /\ isreal (nthF (stored twopi m p real sbf s Sp) j).
+Proof. exact (stored_nonneg_thm twopi m p real sbf s Sp j). Qed.
+
+Theorem psd_nonneg_periodogram tw twopi (x w : list F) NFFT isreal dt sbf fs k :
+  let n := resolve NFFT (length x) in
+  (1 <= n)%nat -> (1 <= length x)%nat -> (k < nbins isreal n)%nat ->
+  (py_is_true sbf = true -> nonneg (sbf_factor twopi fs n)) ->
+  nonneg (nthF (speriodogram tw twopi x w NFFT isreal dt sbf fs) k).
+Proof. exact (speriodogram_nonneg_thm tw twopi x w NFFT isreal dt sbf fs k). Qed.
+
+Theorem psd_real_correlogram tw rp (x : list F) y lag wfull NFFT nm be l k :
+  correlogram tw rp x y lag wfull NFFT nm be = Some l -> isreal (nthF l k).
+Proof. exact (correlogram_real_thm tw rp x y lag wfull NFFT nm be l k). Qed.
+
+Theorem psd_nonneg_arma (n : nat) (tw : Z -> F) (Tw : Twiddle n tw) A B rho T psd :
+  pos rho -> pos T ->
+  arma2psd tw A B rho T n SidesDefault false = Some psd ->
+  forall k, (k < n)%nat -> polyz_opt tw A (Z.of_nat k) <> 0 -> nonneg (nthF psd k).
+Proof. exact (arma2psd_nonneg_thm n tw A B rho T psd). Qed.
+
+Theorem psd_nonneg_minvar nfft (tw : Z -> F) (T : Twiddle nfft tw) (x : list F) m s psd A ks :
+  (2 * m - 1 <= nfft)%nat -> pos s ->
+  minvar tw x m s nfft = Some (psd, A, ks) ->
+  forall f, (f < nfft)%nat -> pos (nthF psd f) /\ conj (nthF psd f) = nthF psd f.
+Proof. exact (fun Hn Hs H => proj2 (minvar_positive_thm nfft tw x m s psd A ks Hn Hs H)). Qed.
+
+Theorem psd_nonneg_multitaper {NWT : Type} (dpss : nat -> NWT -> option nat -> list (list F) * list F)
+  fuel tw isr (x : list F) NW k nfft e v m sbf scale psd Skc w ev :
+  let n := match nfft with Some n => n | None => length x end in
+  mt_call dpss fuel tw isr x NW k nfft e v m sbf scale = Some psd ->
+  pmtm dpss fuel tw x NW k (Some n) e v m = Some (Skc, w, ev) ->
+  (1 <= length ev)%nat ->
+  (forall j b, (j < length ev)%nat -> (b < n)%nat -> nonneg (wt m w j b)) ->
+  (sbf = true -> nonneg scale) ->
+  forall b, (b < length psd)%nat -> nonneg (nthF psd b) /\ isreal (nthF psd b).
+Proof. exact (class_real_nonneg_thm dpss fuel tw isr x NW k nfft e v m sbf scale psd Skc w ev). Qed.
+
+Theorem psd_nonneg_subspace (tw : Z -> F) meth eps (P : nat) (S : list F) (Vh : list (list F)) (ns : nat) (b : Z) (I : nat) :
+  (meth = MEv -> pos eps /\ pos (nthF S 0) /\ forall I, (ns <= I)%nat -> (I < P)%nat -> nonneg (nthF S I)) ->
+  (ns <= I)%nat -> (I < P)%nat -> dftN tw P (rsv Vh I) b <> 0 ->
+  pos (dform meth eps tw P S Vh ns b) /\ pos (1 / dform meth eps tw P S Vh ns b).
+Proof. exact (fun Hw => pseudo_value_pos tw meth eps P S Vh ns Hw b I). Qed.
+End C02nonneg.
 
 (* non-vacuity: Gaussian rationals are an ordered *-field with an exact character of period 4 *)
 Example ordered_instance : OrdLaws qcc_ops. Proof. exact qcc_ord. Qed.
@@ -67,8 +392,107 @@ Example tone_example :
   = @mul _ qcc_ops (cz (3,0) (1,0)) (cz (3,0) (0,0)).
 Proof. apply qcc_eq_canon; vm_compute; reflexivity. Qed.
 
+
+(* ---- the new theorems on concrete Gaussian-rational inputs (exact character of period 4: tw4 a = (-i)^a) ---- *)
+Local Existing Instance qcc_ops.
+Ltac qcc_eq := apply qcc_eq_canon; vm_compute; reflexivity.
+Ltac qcc_nn r := apply (@nonneg_eq _ qcc_ops qcc_ord (@nrm2 _ qcc_ops r)); [qcc_eq|apply (@nn_nrm2 _ qcc_ops qcc_ord)].
+Definition q1 : QcC := cz (1,0) (0,0).
+Definition exA : QcC := cz (3,0) (1,0).                                     (* 3 + i *)
+Definition ex_tone : list QcC := mk 3 (@tone _ qcc_ops tw4 exA 1).          (* A * i^t, t = 0,1,2: bin 1 of the 4-point grid, N = 3 < NFFT *)
+Definition ex_win : list QcC := [cz (1,-1) (0,0); q1; cz (1,-1) (0,0)].     (* 1/2, 1, 1/2 *)
+Definition ex_P : list QcC := @speriodogram _ qcc_ops tw4 q1 ex_tone ex_win (Some 4%nat) false PyFalse PyFalse q1.
+(* by evaluation: the four bins are 0, |A|^2 2^2/3 = 40/3, 0 ... the maximum sits at entry 1 *)
+Example periodogram_peak_values :
+  forallb (fun j => Qcleb (fst (nthF ex_P j)) (fst (nthF ex_P 1))) (seq 0 4) = true
+  /\ nthF ex_P 1 = @Ops.div _ qcc_ops (cz (40,0) (0,0)) (cz (3,0) (0,0)).
+Proof. split; [vm_compute; reflexivity|qcc_eq]. Qed.
+(* and the hypotheses of periodogram_peak are jointly satisfiable: the theorem applied to this input *)
+Example periodogram_peak_applies (j : nat) : (j < 4)%nat -> @le _ qcc_ops qcc_ord (nthF ex_P j) (nthF ex_P 1).
+Proof.
+  intros Hj. assert (Hpos : (0 < 4)%nat) by lia.
+  refine (proj1 (@periodogram_peak _ qcc_ops qcc_laws qcc_ord 4%nat tw4 tw4_twiddle Hpos q1 ex_tone ex_win false PyFalse PyFalse q1 exA 1 j 1%nat
+                   eq_refl eq_refl _ _ _ _ _ _)).
+  - cbn. lia.
+  - intros i Hi. unfold ex_tone in *. rewrite mk_length in Hi. rewrite nth_mk by exact Hi. reflexivity.
+  - intros i Hi. cbn in Hi. destruct i as [|[|[|i]]]; [qcc_nn (cz (1,-1) (1,-1))|qcc_nn q1|qcc_nn (cz (1,-1) (1,-1))|lia].
+  - exact Hj.
+  - cbn. lia.
+  - exists 0. reflexivity.
+Qed.
+(* real sinusoid A i^t + conj(A) (-i)^t on the whole 4-point grid, rectangular window: bins 1 and 3 hold |A|^2 * 4 = 40, bins 0 and 2 are 0;
+   the one-sided (real-data) result has its maximum at entry 1 *)
+Definition ex_sin : list QcC := mk 4 (fun t => @add _ qcc_ops (@mul _ qcc_ops exA (tw4 (- (1 * Z.of_nat t)))) (@mul _ qcc_ops (@conj _ qcc_ops exA) (tw4 (1 * Z.of_nat t)))).
+Example real_sinusoid_values :
+  @speriodogram _ qcc_ops tw4 q1 ex_sin [q1; q1; q1; q1] (Some 4%nat) false PyFalse PyFalse q1
+    = [@zero _ qcc_ops; cz (40,0) (0,0); @zero _ qcc_ops; cz (40,0) (0,0)]
+  /\ @speriodogram _ qcc_ops tw4 q1 ex_sin [q1; q1; q1; q1] (Some 4%nat) true PyFalse PyFalse q1
+    = [@zero _ qcc_ops; cz (40,0) (0,0); @zero _ qcc_ops].
+Proof. split; vm_compute; reflexivity. Qed.
+(* covariance method, order 1, on the noiseless exponential A i^t (N = 4 >= 2p): the executed model returns a = [-i], e = 0; the
+   denominator polynomial 1 + a_0 w^b vanishes at bin 1 only; rho = 0 and arma2psd returns the all-zero spectrum *)
+Definition ex_exp : list QcC := mk 4 (@tone _ qcc_ops tw4 exA 1).
+Definition tol4 : QcC := (Q2Qc (1 # 10000), Q2Qc 0).
+Example covar_tone_values :
+  @arcovar _ qcc_ops tol4 ex_exp 1 = Some ([cz (0,0) (-1,0)], @zero _ qcc_ops)
+  /\ @modcovar _ qcc_ops tol4 ex_exp 1 = Some ([cz (0,0) (-1,0)], @zero _ qcc_ops)
+  /\ map (fun b => @polyz _ qcc_ops tw4 [cz (0,0) (-1,0)] (Z.of_nat b)) (seq 0 4)
+     = [cz (1,0) (-1,0); @zero _ qcc_ops; cz (1,0) (1,0); cz (2,0) (0,0)]
+  /\ @arma2psd _ qcc_ops tw4 (Some [cz (0,0) (-1,0)]) None (@zero _ qcc_ops) q1 4 SidesDefault false
+     = Some [@zero _ qcc_ops; @zero _ qcc_ops; @zero _ qcc_ops; @zero _ qcc_ops].
+Proof. repeat split; vm_compute; reflexivity. Qed.
+(* pmusic on the noiseless constant (1+i) * 1^t (K = 1, true bin 0; exact SVD of its 4 x 2 data matrix as in Properties/C17.v): the complex-data
+   class stores 1/D at the two-sided bins 0,1,2,3 with D = 0, 1, 2, 1 -- the entry of the true bin is the reciprocal of an exact zero (reads 0 in the
+   totalised field of the model, inf in the code); real-data storage: twice the values at bins 0,-1,-2 *)
+Definition ex_mx : list QcC := [cz (1,0) (1,0); cz (1,0) (1,0); cz (1,0) (1,0); cz (1,0) (1,0)].
+Definition ex_mS : list QcC := [cz (4,0) (0,0); cz (0,0) (0,0)].
+Definition ex_mVh : list (list QcC) := [[cz (1,-1) (-1,-1); cz (1,-1) (-1,-1)]; [cz (1,-1) (-1,-1); cz (-1,-1) (1,-1)]].
+Example music_class_values :
+  map (fun b => @dform _ qcc_ops MMusic (cz (1,-52) (0,0)) tw4 2 ex_mS ex_mVh 1 (Z.of_nat b)) (seq 0 4)
+    = [@zero _ qcc_ops; cz (1,0) (0,0); cz (2,0) (0,0); cz (1,0) (0,0)]
+  /\ @pclass _ qcc_ops MMusic (cz (1,-52) (0,0)) false None (Some (NInt 1)) None CAic 0 tw4 4 ex_mx 2 ex_mS ex_mVh
+    = inr ([@zero _ qcc_ops; cz (1,0) (0,0); cz (1,-1) (0,0); cz (1,0) (0,0)], ex_mS)
+  /\ @pclass _ qcc_ops MMusic (cz (1,-52) (0,0)) true None (Some (NInt 1)) None CAic 0 tw4 4 ex_mx 2 ex_mS ex_mVh
+    = inr ([@zero _ qcc_ops; cz (2,0) (0,0); cz (1,0) (0,0)], ex_mS).
+Proof. repeat split; vm_compute; reflexivity. Qed.
+(* the store vocabulary: where the entries of a 4-point result land *)
+Example store_indices :
+  map (src_index SCenter2Two 4 4) (seq 0 4) = [2; 3; 0; 1]%nat
+  /\ map (src_index (SHalf HalfPlus1 HalfUp 2 true) 4 4) (seq 0 3) = [2; 1; 0]%nat
+  /\ map (src_index (SHalf HalfPlus1 HalfUp 2 true) 5 5) (seq 0 3) = [2; 1; 0]%nat
+  /\ map (src_index (SHalf HalfPlus1 HalfUp 2 false) 5 5) (seq 0 3) = [0; 1; 2]%nat.
+Proof. repeat split; reflexivity. Qed.
+
 Print Assumptions axis_counts.
 Print Assumptions twosided_axis.
 Print Assumptions unit_sum_bound.
 Print Assumptions tone_at_its_bin.
 Print Assumptions tone_peak.
+Print Assumptions periodogram_peak.
+Print Assumptions periodogram_class_peak.
+Print Assumptions real_sinusoid_bins.
+Print Assumptions real_sinusoid_peak.
+Print Assumptions correlogram_peak.
+Print Assumptions music_tone_exact.
+Print Assumptions music_no_other_zero.
+Print Assumptions covar_tone_exact.
+Print Assumptions modcovar_tone_exact.
+Print Assumptions covar_tone_returns.
+Print Assumptions functional_lengths.
+Print Assumptions pipeline_entry.
+Print Assumptions pipeline_axis_halfslice.
+Print Assumptions arma_class_axis.
+Print Assumptions minvar_class_axis.
+Print Assumptions multitaper_class_axis.
+Print Assumptions music_axis_eigen.
+Print Assumptions music_axis_complex.
+Print Assumptions music_axis_real.
+Print Assumptions arma2psd_rho_zero.
+Print Assumptions class_models_agree.
+Print Assumptions psd_nonneg_stored.
+Print Assumptions psd_nonneg_periodogram.
+Print Assumptions psd_real_correlogram.
+Print Assumptions psd_nonneg_arma.
+Print Assumptions psd_nonneg_minvar.
+Print Assumptions psd_nonneg_multitaper.
+Print Assumptions psd_nonneg_subspace.
